@@ -9,6 +9,7 @@ import (
 	"github.com/sarchlab/mgpusim/v4/amd/emu"
 	"github.com/sarchlab/mgpusim/v4/amd/insts"
 	"github.com/sarchlab/mgpusim/v4/amd/kernels"
+	"github.com/sarchlab/mgpusim/v4/amd/protocol"
 	"github.com/sarchlab/mgpusim/v4/amd/timing/cu"
 	"github.com/sarchlab/mgpusim/v4/amd/timing/wavefront"
 )
@@ -179,4 +180,66 @@ func DiffTraces(nameA string, a *InstTrace, nameB string, b *InstTrace) string {
 		}
 	}
 	return ""
+}
+
+// WGRecord is what was observed for one mapped work-group on a compute unit's dispatch port.
+type WGRecord struct {
+	WG          [3]int
+	CU          string
+	MappedAt    sim.VTimeInSec
+	Completions int
+	CompletedAt sim.VTimeInSec
+}
+
+// DispatchTrace observes work-group mapping and completion messages at the compute units.
+type DispatchTrace struct {
+	engine sim.Engine
+	ByReq  map[string]*WGRecord
+	Order  []string
+	// UnknownCompletions counts completion ids that match no observed map request
+	UnknownCompletions int
+}
+
+// Func implements sim.Hook on the compute units' dispatch ports.
+func (d *DispatchTrace) Func(ctx sim.HookCtx) {
+	now := d.engine.CurrentTime()
+	switch ctx.Pos {
+	case sim.HookPosPortMsgRecvd:
+		if req, ok := ctx.Item.(*protocol.MapWGReq); ok {
+			r := &WGRecord{MappedAt: now}
+			if req.WorkGroup != nil {
+				r.WG = [3]int{req.WorkGroup.IDX, req.WorkGroup.IDY, req.WorkGroup.IDZ}
+			}
+			if p, ok := ctx.Domain.(sim.Port); ok {
+				r.CU = p.Name()
+			}
+			d.ByReq[req.ID] = r
+			d.Order = append(d.Order, req.ID)
+		}
+	case sim.HookPosPortMsgSend:
+		if msg, ok := ctx.Item.(*protocol.WGCompletionMsg); ok {
+			for _, id := range msg.RspTo {
+				if r, ok := d.ByReq[id]; ok {
+					r.Completions++
+					r.CompletedAt = now
+				} else {
+					d.UnknownCompletions++
+				}
+			}
+		}
+	}
+}
+
+// TraceDispatch attaches a DispatchTrace to every compute unit.
+func (p *Platform) TraceDispatch() *DispatchTrace {
+	d := &DispatchTrace{engine: p.Engine, ByReq: map[string]*WGRecord{}}
+	for _, c := range p.Sim.Components() {
+		switch u := c.(type) {
+		case *emu.ComputeUnit:
+			u.ToDispatcher.AcceptHook(d)
+		case *cu.ComputeUnit:
+			u.ToACE.AcceptHook(d)
+		}
+	}
+	return d
 }
